@@ -197,6 +197,8 @@ func main() {
 	emitBCases(o)
 	emitMCases(o)
 	emitICases(o)
+	emitACases(o)
+	emitMACases(o)
 }
 
 func replay(o Opts) {
